@@ -42,7 +42,7 @@ CaseResult runC10(const Case &c, RunCtx &ctx) {
         std::string m = checkAgreement(a, L.gt.named, &L.gt.gaps);
         if (!m.empty()) { r.fail("after refused calls the header/parameter/data agreement is broken: " + m); return r; }
         std::string why;
-        if (framesComplete(in.o(), &why) && withinCapacity(a, &why)) {
+        if (framesComplete(in.o(), &why) && withinCapacity(a, &why) && uniqueModuloCase(in.o())) {
             try {
                 const std::string path = in.path("c10.c3d");
                 in.o().write(path);
